@@ -158,6 +158,10 @@ def via_wsgi(ctx, chunks, form):
     req = drivers.Req(method="POST", headers=hdrs, chunks=chunks)
     env = drivers.to_environ(req)
     r = wsgi.Request(env)
+    if form.get("body_first") or sum(map(len, chunks)) % 3 == 0:
+        # the whole body is read (and cached) first: the form must then be decoded from the replayed bytes
+        if r.body != b"".join(chunks):
+            raise GrammarError("body-differs-from-the-bytes-sent")
     out = norm(r.form.multi_items())
     if env["wsgi.input"].reads_after_eof:
         raise GrammarError("wsgi.input-read-after-eof")
@@ -175,6 +179,9 @@ def via_asgi(ctx, chunks, form):
 
     async def app(scope, receive, send):
         r = asgi.Request(scope, receive, send)
+        if form.get("body_first") or sum(map(len, chunks)) % 3 == 1:
+            if await r.body != b"".join(chunks):
+                raise GrammarError("body-differs-from-the-bytes-sent")
         box["items"] = (await r.form).multi_items()
         # the async read paths of the uploaded files, then back to the start for the sync ones
         box["async"] = []
@@ -436,8 +443,8 @@ def run(ctx):
         exp = MC.expected(form)
         for size in ((65536, 100_003) if ctx.shard == 0 else (4096, 999_983)):
             chunks = [body[j:j + size] for j in range(0, len(body), size)]
-            for path in ("sync", "async", "wsgi-form", "asgi-form"):
-                judge(ctx, {"boundary": b"big", "parts": "1.3 MB upload between two fields"}, body, spans, exp, (), path, chunks) if False else None
+            for path, bf in (("sync", False), ("async", False), ("wsgi-form", False), ("asgi-form", False), ("wsgi-form", True), ("asgi-form", True)):
+                form["body_first"] = bf  # the accessor paths run once with the body read (and cached) first, once without
                 try:
                     got = run_path(ctx, path, chunks, form)
                     ctx.mon("ground-truth-compare")
@@ -447,7 +454,7 @@ def run(ctx):
                                       f"lengths {[len(x[2]) for x in got]} vs {[len(x[2]) for x in exp]}")
                 except Exception as e:
                     ctx.violation(f"exception|{type(e).__name__}|{path}|large-upload", {"form": "1.3 MB upload", "chunk": size, "path": path}, repr(e)[:300])
-                ctx.case(("large-upload", size, path))
+                ctx.case(("large-upload", size, path, bf))
     ctx.extra["exhaustive_bound"] = "per generated body: all single cut positions (event-level + sync paths); all cut pairs for bodies up to the stated size"
 
 
